@@ -208,6 +208,19 @@ class Interp:
         self.solver_checks += 1
         r = self.solver.check(c)
         if r == z3.unknown:
+            s2 = z3.SolverFor('QF_BV'); s2.set('timeout', 60000)
+            for c_ in self.solver.assertions(): s2.add(c_)
+            s2.add(c)
+            r2 = s2.check()
+            if r2 == z3.unsat: return False
+            if r2 == z3.sat:
+                mm2 = s2.model()
+                vs = set()
+                fix = []
+                for d in mm2.decls():
+                    if d.arity() == 0: fix.append(d() == mm2[d])
+                r = self.solver.check(*([c] + fix))
+        if r == z3.unknown:
             r = self.check_split([c])
             if r == z3.unknown:
                 raise Unsupported('solver returned unknown (%s) on a feasibility check in %s' % (self.solver.reason_unknown(), self.stack[-1] if self.stack else '?'))
